@@ -450,27 +450,71 @@ def rfc6979_rules(prog, chk, pid):
             why = "on rejection K, V are not updated as K = HMAC_K(V || 00), V = HMAC_K(V)"
     chk.require(ok, P("rfc6979-script"), fi.qualname, "steps B-H of RFC 6979 3.2 replayed as HMAC terms", where,
                 "V = 01.., K = 00..; K = HMAC_K(V||00||x||h1||extra); V = HMAC_K(V); K = HMAC_K(V||01||x||h1||extra); V = HMAC_K(V); repeat T = T||HMAC_K(V) until rolen = ceil(qlen/8) octets; k = bits2int(T, qlen) accepted iff 1 <= k < q, else K = HMAC_K(V||00), V = HMAC_K(V)", why)
-    # ---- bits2int / bits2octets
+    # ---- bits2int / bits2octets: the returned value, as a term over (x = int(hexlify(data), 16), len(data), qlen) resp. (z1 = bits2int(...), order), is compared
+    # with the RFC's definition on a grid of values by the checker's own arithmetic -- whichever way the one conditional step is spelled
+    from bfsa.evalterm import NoEval, eval_function_result, eval_term
+    from bfsa.terms import subterms as _subterms
+
     fb = prog.func(E + "rfc6979.bits2int")
     exb = Exec(prog, policy=lambda e, f, d: False)
     rb = exb.run(fb)
-    rets = [e for e in rb.events if e.kind == "return" and e.stack == (fb.qualname,)]
-    okb = len(rets) == 2
+    okb, whyb = rb.ret is not None, "bits2int has no return value"
     if okb:
-        shapes = sorted(show(unsnap(r.d["value"]), 6) for r in rets)
-        g = [e for e in rb.events if e.kind == "op" and e.d["op"] in ("Gt", "Lt")]
-        okb = any(">>" in s_ and "len(data) * 8" in s_.replace("(len(data) * 8)", "len(data) * 8") and "- qlen" in s_ for s_ in shapes) and any("hexlify" in s_ and ">>" not in s_ for s_ in shapes)
-    chk.require(okb, P("rfc6979-bits2int"), fb.qualname, "x = int(hexlify(data), 16); x >> (8*len(data) - qlen) if 8*len(data) > qlen else x", "%s:%d" % (fb.file, fb.lineno), "bits2int keeps the leftmost qlen bits (RFC 6979 2.3.2)", "bits2int is not the leftmost-qlen-bits conversion")
+        ret = unsnap(rb.ret)
+        allret = [unsnap(e.d["value"]) for e in rb.events if e.kind == "return" and e.stack == (fb.qualname,)] + [unsnap(f[1]) for e in rb.events if e.kind == "return" for f in e.ctx if f[0] == "if"]
+        ret = mk("tuple", tuple(allret))
+        xs = [t for t in _subterms(ret) if t.op == "call" and "int" == getattr(unsnap(t.args[0]), "args", ("",))[0] and len(t.args[1]) == 2 and "hexlify" in show(t.args[1][0], 4) and is_const(t.args[1][1]) and cval(t.args[1][1]) == 16]
+        lens = [t for t in _subterms(ret) if t.op == "len" and unsnap(t.args[0]).op == "param" and unsnap(t.args[0]).args[0] == fb.params[0]]
+        q_ = mk("param", fb.params[1])
+        okb = len({t.uid for t in xs}) == 1 and len({t.uid for t in lens}) == 1 and "hexlify" in show(xs[0], 5) and unsnap(unsnap(xs[0].args[1][0]).args[1][0]).op == "param"
+        whyb = "bits2int does not start from int(hexlify(data), 16) and len(data)"
+        if okb:
+            try:
+                for nbytes in (1, 2, 20, 32, 66):
+                    for qlen in (1, 7, 8, 9, 15, 16, 17, 160, 255, 256, 257, 521, 528, 529):
+                        for xv in (0, 1, (1 << (8 * nbytes)) - 1, (0xA5C3 << (8 * nbytes)) >> 16, 1 << (8 * nbytes - 1)):
+                            got = eval_function_result(rb, fb.qualname, {xs[0].uid: xv, lens[0].uid: nbytes, q_.uid: qlen})
+                            want = xv >> (8 * nbytes - qlen) if 8 * nbytes > qlen else xv
+                            if got != want:
+                                okb, whyb = False, "for %d input bytes and qlen = %d bits2int gives %#x, the leftmost qlen bits are %#x" % (nbytes, qlen, got, want)
+                                raise StopIteration
+            except StopIteration:
+                pass
+            except NoEval as e_:
+                raise AnalysisError("bits2int is not arithmetic over (int(hexlify(data), 16), len(data), qlen): %s" % e_)
+    chk.require(okb, P("rfc6979-bits2int"), fb.qualname, "x = int(hexlify(data), 16); x >> (8*len(data) - qlen) if 8*len(data) > qlen else x", "%s:%d" % (fb.file, fb.lineno), "bits2int keeps the leftmost qlen bits (RFC 6979 2.3.2); compared on a grid of lengths, qlen and values", whyb)
     fo = prog.func(E + "rfc6979.bits2octets")
     exo = Exec(prog, policy=lambda e, f, d: False)
     ro = exo.run(fo)
     v = unsnap(ro.ret) if ro.ret is not None else None
     oko = v is not None and v.op == "call" and "number_to_string_crop" in show(v.args[0], 3)
+    whyo = "bits2octets does not end in number_to_string_crop(z2, order)"
     if oko:
         a0, a1 = [unsnap(x) for x in v.args[1][:2]]
-        s0 = show(a0, 8)
-        oko = a1.op == "param" and a1.args[0] == fo.params[1] and a0.op == "phi" and "bits2int" in s0 and "- order" in s0 and "< 0" in show(a0.args[0], 6)
-    chk.require(oko, P("rfc6979-bits2octets"), fo.qualname, "z1 = bits2int(data, qlen); z2 = z1 - q; int2octets(z2 if z2 >= 0 else z1)", "%s:%d" % (fo.file, fo.lineno), "bits2octets reduces once modulo q (RFC 6979 2.3.4)", "bits2octets is not z1 mod q by one conditional subtraction")
+        order_p = mk("param", fo.params[1])
+        z1s = [t for t in _subterms(a0) if t.op == "call" and "bits2int" in show(t.args[0], 3)]
+        oko = a1 is order_p and len({t.uid for t in z1s}) == 1
+        whyo = "bits2octets does not convert bits2int(data, qlen) reduced by the order"
+        if oko:
+            z1 = z1s[0]
+            b2 = [unsnap(x) for x in z1.args[1]]
+            oko = len(b2) == 2 and b2[0].op == "param" and b2[0].args[0] == fo.params[0] and "bit_length" in show(b2[1], 4) and any(t is order_p for t in _subterms(b2[1]))
+            whyo = "bits2octets does not take bits2int(data, bit_length(order))"
+        if oko:
+            try:
+                for q in (2, 3, 251, 257, (1 << 160) + 7, (1 << 521) - 1):
+                    for zv in (0, 1, q - 1, q, q + 1, 2 * q - 1):
+                        if zv >= 2 * q or zv.bit_length() > q.bit_length():
+                            continue  # bits2int returns at most bit_length(q) bits, so z1 < 2q
+                        got = eval_term(a0, {z1.uid: zv, order_p.uid: q})
+                        if got != zv % q:
+                            oko, whyo = False, "for z1 = %d and order %d the value converted is %d, z1 mod q is %d" % (zv, q, got, zv % q)
+                            raise StopIteration
+            except StopIteration:
+                pass
+            except NoEval as e_:
+                raise AnalysisError("bits2octets is not arithmetic over (bits2int(...), order): %s" % e_)
+    chk.require(oko, P("rfc6979-bits2octets"), fo.qualname, "z1 = bits2int(data, qlen); z2 = z1 - q; int2octets(z2 if z2 >= 0 else z1)", "%s:%d" % (fo.file, fo.lineno), "bits2octets reduces once modulo q (RFC 6979 2.3.4); compared on a grid of values", whyo)
 
 
 def hash_consistency_rules(prog, chk, pid):
